@@ -66,15 +66,11 @@ class Rule(Harness):
         before = copy.deepcopy(M.ssh2_kexdb.SSH2_KexDB.MASTER_DB)
         kexl = ['curve25519-sha256'] + ([MS] if 's' in self.markers else []) + ([MC] if 'c' in self.markers else [])
         out = M.outputbuffer.OutputBuffer()
-        # the audited party's lists are the server-to-client ones for a server and the client-to-server ones for a client; the other side holds decoys
-        decoy_e, decoy_m = ['chacha20-poly1305@openssh.com', 'aes256-cbc'], ['hmac-sha1-etm@openssh.com']
+        # the lists the tool reports, rates and evaluates are the server-to-client ones, for servers and clients alike (C01); the Terrapin marks must follow
+        # the lists that are shown.  The client-to-server direction holds neutral decoys, so a consumer of the wrong direction marks nothing.
         own_e, own_m = list(inp['enc']) or [''], list(inp['mac']) or ['']
-        if self.client:
-            cli = M.ssh2_kexparty.SSH2_KexParty(own_e, own_m, ['none'], [''])
-            srv = M.ssh2_kexparty.SSH2_KexParty(['aes128-ctr'], ['hmac-sha2-256'], ['none'], [''])
-        else:
-            cli = M.ssh2_kexparty.SSH2_KexParty(['aes128-ctr'], ['hmac-sha2-256'], ['none'], [''])
-            srv = M.ssh2_kexparty.SSH2_KexParty(own_e, own_m, ['none'], [''])
+        cli = M.ssh2_kexparty.SSH2_KexParty(['aes128-ctr'], ['hmac-sha2-256'], ['none'], [''])
+        srv = M.ssh2_kexparty.SSH2_KexParty(own_e, own_m, ['none'], [''])
         kex = M.ssh2_kex.SSH2_Kex(out, b'\x00' * 16, kexl, ['ssh-ed25519'], cli, srv, False, 0)
         algs = M.algorithms.Algorithms(None, kex)
         banner = M.banner.Banner((2, 0), 'OpenSSH_9.0', None, True)
@@ -179,20 +175,21 @@ class Rendering(Harness):
     prop, ob = PROP, 'O2'
     width = 64
 
-    def __init__(self, enc, mac, marker):
-        self.enc, self.mac, self.marker = tuple(enc), tuple(mac), marker
-        self.name = 'render-enc(%s)-mac(%s)-%s' % (','.join(enc), ','.join(mac), 'marker' if marker else 'nomarker')
+    def __init__(self, enc, mac, marker, client=False):
+        self.enc, self.mac, self.marker, self.client = tuple(enc), tuple(mac), marker, client
+        self.name = 'render-enc(%s)-mac(%s)-%s%s' % (','.join(enc), ','.join(mac), 'marker' if marker else 'nomarker', '-client' if client else '')
 
     def params(self):
-        return {'enc': list(self.enc), 'mac': list(self.mac), 'marker': self.marker}
+        return {'enc': list(self.enc), 'mac': list(self.mac), 'marker': self.marker, 'client': self.client}
 
     def inputs(self):
         return {'enc': build(ENC_FORMS, self.enc, 'e'), 'mac': build(MAC_FORMS, self.mac, 'm')}
 
     def run(self, M, inp):
-        L = {'kex': ['curve25519-sha256'] + ([MS] if self.marker else []), 'key': ['ssh-ed25519'], 'enc': list(inp['enc']), 'mac': list(inp['mac'])}
-        t = OL.run_output(M, L)
-        j = OL.run_output(M, L, json=True)
+        # the lists the report shows are the harness's lists; the other direction carries decoys (no ChaCha20 / CBC / EtM name), also in client audits
+        L = {'kex': ['curve25519-sha256'] + ([MC if self.client else MS] if self.marker else []), 'key': ['ssh-ed25519'], 'enc': list(inp['enc']), 'mac': list(inp['mac'])}
+        t = OL.run_output(M, L, client=self.client)
+        j = OL.run_output(M, L, json=True, client=self.client)
         if isinstance(t['ret'], Exc) or isinstance(j['ret'], Exc):
             return {'exc': t['ret'] if isinstance(t['ret'], Exc) else j['ret']}
         parsed = OL.parse_alg_lines(t['lines'])
@@ -208,7 +205,7 @@ class Rendering(Harness):
             return
         from vf.harness import mods
         master = mods()[1].ssh2_kexdb.SSH2_KexDB.MASTER_DB
-        r = Rule(False, 's' if self.marker else '', self.enc, self.mac)
+        r = Rule(self.client, ('c' if self.client else 's') if self.marker else '', self.enc, self.mac)
         vul = [(c, n) for c, n, cond in r.vulnerable(inp) if bool(cond) and not self.marker and any(bool(n == k) for k in master[c])]
         same = lambda a, b: len(a) == len(b) and all(x[0] == y[0] and bool(x[1] == y[1]) for x, y in zip(a, b))
         yield 'text-note-on-exactly-the-vulnerable', same(obs['text'], vul)
@@ -245,6 +242,7 @@ def tasks(tier):
                  (('free-tok',), ('etm-db',)), (('cbc-db',), ('free-tok',))]:
         for marker in (False, True):
             T.append(Rendering(e, m, marker))
+            T.append(Rendering(e, m, marker, True))
     return T
 
 
@@ -254,7 +252,7 @@ def harness_by_name(name, params):
     if k == 'rule':
         return Rule(p['client'], p['markers'], p['enc'], p['mac'])
     if k == 'render':
-        return Rendering(p['enc'], p['mac'], p['marker'])
+        return Rendering(p['enc'], p['mac'], p['marker'], p.get('client', False))
     raise KeyError(name)
 
 
